@@ -7,7 +7,7 @@ task-creation models assume. -/
 namespace SciVerif.Tie
 -- PIN-NOT: Scipipe.Task_Execute Scipipe.FinalizePaths Scipipe.Task_writeAuditLogs
 -- functions the model relies on without an obligation of its own naming them (pinned by bin/mkpins):
--- PIN-ALSO: Scipipe.Workflow_runProcs Scipipe.Sink_Run Scipipe.InPort_Recv Scipipe.InParamPort_Recv Scipipe.InPort_From Scipipe.InParamPort_From Scipipe.OutPort_To Scipipe.OutParamPort_To Scipipe.InPort_AddRemotePort Scipipe.OutPort_AddRemotePort Scipipe.InParamPort_AddRemotePort Scipipe.OutParamPort_AddRemotePort Scipipe.InPort_removeRemotePort Scipipe.OutPort_removeRemotePort Scipipe.BaseProcess_CloseAllOutPorts Scipipe.BaseProcess_CloseOutParamPorts Scipipe.getBufsize Scipipe.NewOutPort Scipipe.NewOutParamPort Scipipe.InParamPort_FromStr Scipipe.BaseProcess_InitInPort Scipipe.BaseProcess_InitOutPort Scipipe.BaseProcess_InitInParamPort Scipipe.BaseProcess_InitOutParamPort Scipipe.Process_In Scipipe.Process_Out Scipipe.Process_InParam Scipipe.Process_OutParam Scipipe.NewProc Scipipe.Workflow_NewProc Scipipe.NewBaseProcess Scipipe.BaseProcess_InPort Scipipe.BaseProcess_OutPort Scipipe.BaseProcess_InParamPort Scipipe.BaseProcess_OutParamPort Scipipe.BaseProcess_InPorts Scipipe.BaseProcess_OutPorts Scipipe.BaseProcess_InParamPorts Scipipe.BaseProcess_OutParamPorts Scipipe.InPort_SetProcess Scipipe.OutPort_SetProcess Scipipe.InPort_Process Scipipe.OutPort_Process Scipipe.OutParamPort_Process Scipipe.InParamPort_Process Scipipe.InParamPort_FromInt Scipipe.InParamPort_FromFloat
+-- PIN-ALSO: Scipipe.Workflow_runProcs Scipipe.Sink_Run Scipipe.InPort_Recv Scipipe.InParamPort_Recv Scipipe.InPort_From Scipipe.InParamPort_From Scipipe.OutPort_To Scipipe.OutParamPort_To Scipipe.InPort_AddRemotePort Scipipe.OutPort_AddRemotePort Scipipe.InParamPort_AddRemotePort Scipipe.OutParamPort_AddRemotePort Scipipe.InPort_removeRemotePort Scipipe.OutPort_removeRemotePort Scipipe.BaseProcess_CloseAllOutPorts Scipipe.BaseProcess_CloseOutParamPorts Scipipe.getBufsize Scipipe.NewOutPort Scipipe.NewOutParamPort Scipipe.InParamPort_FromStr Scipipe.BaseProcess_InitInPort Scipipe.BaseProcess_InitOutPort Scipipe.BaseProcess_InitInParamPort Scipipe.BaseProcess_InitOutParamPort Scipipe.Process_In Scipipe.Process_Out Scipipe.Process_InParam Scipipe.Process_OutParam Scipipe.NewProc Scipipe.Workflow_NewProc Scipipe.NewBaseProcess Scipipe.BaseProcess_InPort Scipipe.BaseProcess_OutPort Scipipe.BaseProcess_InParamPort Scipipe.BaseProcess_OutParamPort Scipipe.BaseProcess_InPorts Scipipe.BaseProcess_OutPorts Scipipe.BaseProcess_InParamPorts Scipipe.BaseProcess_OutParamPorts Scipipe.InPort_SetProcess Scipipe.OutPort_SetProcess Scipipe.InPort_Process Scipipe.OutPort_Process Scipipe.OutParamPort_Process Scipipe.InParamPort_Process Scipipe.InParamPort_FromInt Scipipe.InParamPort_FromFloat Scipipe.InPort_Name Scipipe.OutPort_Name Scipipe.InParamPort_Name Scipipe.OutParamPort_Name Scipipe.InParamPort_SetProcess Scipipe.OutParamPort_SetProcess
 open SciVerif.Generated
 
 def noEarlyExit (l : List Atom) : Bool := count (fun a => a.kind == .break_ || a.kind == .ret_ || a.kind == .goto_) l == 0
@@ -71,6 +71,7 @@ theorem generated_proc_sem_good_c04 : Proc.good procSem := by decide
 
 
 
+
 -- BEGIN PINS (written by bin/mkpins; do not edit by hand)
 /-- the Go functions this property's model and obligations were written against have exactly the
 pinned skeletons (SHA-256 prefix of the atom list) -/
@@ -100,12 +101,15 @@ theorem pinned_skeletons_c04 :
      ("Scipipe.InParamPort_FromFloat", "8797bd84fe4529ce"),
      ("Scipipe.InParamPort_FromInt", "7c687761b07c0588"),
      ("Scipipe.InParamPort_FromStr", "82f932a5d19fe28f"),
+     ("Scipipe.InParamPort_Name", "b8c33e9fda3e0cad"),
      ("Scipipe.InParamPort_Process", "9128e2db1c92bb3d"),
      ("Scipipe.InParamPort_Recv", "118dc198fdd7a631"),
      ("Scipipe.InParamPort_Send", "4622aa49739ca34b"),
+     ("Scipipe.InParamPort_SetProcess", "e216d2f6c79f87ea"),
      ("Scipipe.InPort_AddRemotePort", "2b23c2eefc8a18f5"),
      ("Scipipe.InPort_CloseConnection", "19d2a9417eaebec1"),
      ("Scipipe.InPort_From", "39357be56d46a631"),
+     ("Scipipe.InPort_Name", "32050bdd567c3af3"),
      ("Scipipe.InPort_Process", "5542a8a79e33c127"),
      ("Scipipe.InPort_Recv", "e48def2c3f368dd0"),
      ("Scipipe.InPort_Send", "62cb51bf3ab53084"),
@@ -119,11 +123,14 @@ theorem pinned_skeletons_c04 :
      ("Scipipe.NewProc", "87c3cac25a30f9dc"),
      ("Scipipe.OutParamPort_AddRemotePort", "d1ae040a8ec1308b"),
      ("Scipipe.OutParamPort_Close", "601ec3b610e0f2df"),
+     ("Scipipe.OutParamPort_Name", "9e2390387954d7b4"),
      ("Scipipe.OutParamPort_Process", "b038149df3b6386e"),
      ("Scipipe.OutParamPort_Send", "001f43b441bb5996"),
+     ("Scipipe.OutParamPort_SetProcess", "e247cf5eded0bbbc"),
      ("Scipipe.OutParamPort_To", "62d0c49416911f20"),
      ("Scipipe.OutPort_AddRemotePort", "711a5e501451ebce"),
      ("Scipipe.OutPort_Close", "82e44734c725a956"),
+     ("Scipipe.OutPort_Name", "32050bdd567c3af3"),
      ("Scipipe.OutPort_Process", "5542a8a79e33c127"),
      ("Scipipe.OutPort_Send", "06287c7bef096378"),
      ("Scipipe.OutPort_SetProcess", "f6f6fdb502d7548a"),
